@@ -258,3 +258,41 @@ mutant("c04-input-origins-not-recorded", "C04", "jax2onnx/converter/ir_context.p
 mutant("c04-axis-pairing-broken", "C04", "jax2onnx/converter/ir_context.py", "        for dim, axis in zip(dims_tuple, axes_tuple):\n            self.record_symbolic_dim_origin(dim, value, axis)", "        for dim, axis in zip(dims_tuple, axes_tuple):\n            self.record_symbolic_dim_origin(dim, value, 0)", expect="axis-pairing")
 mutant("c04-scope-per-symbol", "C04", CAF, "        syms = jax_export.symbolic_shape(n, scope=shared_scope)", "        syms = jax_export.symbolic_shape(n)", expect="symbolic_shape-scope")
 benign("c04-benign-tag-rename", "C04", LDF, 'key = f"coeff_term:{term}"', 'key = f"term_with_coefficient:{term}"')
+
+# ----------------------------------------------------------------------------- C06
+LAXD = "jax2onnx/plugins/jax/lax/"
+mutant("c06-cond-branches-swapped-at-unpack", "C06", LAXD + "cond.py", '        false_closed, true_closed = params["branches"]', '        true_closed, false_closed = params["branches"]', expect="then-else")
+mutant("c06-cond-then-else-swapped", "C06", LAXD + "cond.py", "            then_branch=then_graph,\n            else_branch=else_graph,", "            then_branch=else_graph,\n            else_branch=then_graph,", expect="then-else")
+mutant("c06-switch-truncated-to-two", "C06", LAXD + "cond.py", '        false_closed, true_closed = params["branches"]', '        false_closed, true_closed, *_more = params["branches"]', expect="two-branches")
+mutant("c06-reverse-scan-accepted", "C06", LAXD + "scan.py", '        if params.get("reverse", False):\n            raise NotImplementedError("Reverse scan is not supported in IR pipeline.")\n', "", expect="reverse-rejected")
+mutant("c06-while-constant-initial-condition", "C06", LAXD + "while_loop.py", "        loop_inputs = [trip_count, cond_init_val]", "        cond_true = ctx.builder.add_initializer_from_array(name=ctx.fresh_name('while_cond_true'), array=np.asarray(True))\n        loop_inputs = [trip_count, cond_true]", expect="initial-condition")
+mutant("c06-fori-trip-count-constant", "C06", LAXD + "fori_loop.py", "            value=np.asarray(trip_count, dtype=np.int64),", "            value=np.asarray(max(1, 1), dtype=np.int64),", expect="trip-count")
+mutant("c06-scan-extent-mismatch-accepted", "C06", LAXD + "scan.py", "                if int(dim0) != trip_count_int:\n", "                if False:\n", expect="scanned-extent")
+benign("c06-benign-rename-branch-locals", "C06", LAXD + "cond.py", "            then_branch=then_graph,\n            else_branch=else_graph,", "            else_branch=else_graph,\n            then_branch=then_graph,")
+
+# ----------------------------------------------------------------------------- C16
+LDP = "jax2onnx/converter/lowering_dispatch.py"
+mutant("c16-missing-plugin-returns-none", "C16", LDP, "    detail_text = f\" {detail}\" if detail else \"\"\n    raise NotImplementedError(", "    detail_text = f\" {detail}\" if detail else \"\"\n    if source == \"control_flow\":\n        return None\n    raise NotImplementedError(", expect="get_registered_lowering_plugin")
+mutant("c16-strict-switch-ignored", "C16", CAF, "        if _resolve_strict_optimizer_failures(strict_optimizer_failures):\n            raise\n", "", expect="strict-reraise")
+mutant("c16-env-switch-dropped", "C16", CAF, "    return _env_flag_enabled(_STRICT_OPTIMIZER_FAILURES_ENV)", "    return False", expect="precedence")
+mutant("c16-plugin-swallows-lowering-error", "C16", "jax2onnx/plugins/jax/lax/tanh.py", "        result = ctx.builder.Tanh(x_val, _outputs=[desired_name])", "        try:\n            result = ctx.builder.Tanh(x_val, _outputs=[desired_name])\n        except Exception:\n            return", expect="swallow")
+mutant("c16-dim-origin-missing-tolerated", "C16", LDF, "        if origin is None:\n            raise ValueError(f\"No symbolic dim origin registered for '{name}'\")\n", "        if origin is None:\n            return self._get_scalar(1)\n", expect="missing-origin-raises")
+benign("c16-benign-narrow-handler", "C16", "jax2onnx/plugins/jax/lax/tanh.py", "        result = ctx.builder.Tanh(x_val, _outputs=[desired_name])", "        try:\n            result = ctx.builder.Tanh(x_val, _outputs=[desired_name])\n        except AttributeError:\n            raise")
+
+# ----------------------------------------------------------------------------- C03
+mutant("c03-hard-coded-value-name", "C03", "jax2onnx/plugins/jax/lax/tanh.py", "        result = ctx.builder.Tanh(x_val, _outputs=[desired_name])", '        result = ctx.builder.Tanh(x_val, _outputs=["tanh_out"])', expect="tanh_out")
+mutant("c03-literal-helper-value-in-loop", "C03", OPT, "                    if false_value is None:\n", "                    if True:\n", expect="false_const")
+mutant("c03-subgraph-builder-not-prefixed", "C03", "jax2onnx/plugins/jax/lax/_control_flow_utils.py", "    orig_builder_fresh = child_builder.fresh_name\n    setattr(\n        child_builder,\n        \"fresh_name\",", "    orig_builder_fresh = child_builder.fresh_name\n    setattr(\n        child_builder,\n        \"_fresh_name_unused\",", expect="prefix-both-allocators")
+mutant("c03-subgraph-prefix-not-from-parent", "C03", "jax2onnx/plugins/jax/lax/_control_flow_utils.py", "    prefix_base = parent_ctx.fresh_name(prefix)", "    prefix_base = prefix", expect="prefix-both-allocators")
+mutant("c03-plugin-writes-initializer-directly", "C03", "jax2onnx/plugins/equinox/eqx/nn/dropout.py", "    builder.inputs.append(value)", "    builder.inputs.append(value)\n    builder.initializers.append(value)", expect="writes-initializers")
+mutant("c03-functions-not-attached", "C03", CAF, "    for fn_ir in ir_funcs:\n        functions_store[_function_store_identifier(fn_ir)] = fn_ir\n", "    for fn_ir in ir_funcs[:1]:\n        pass\n", expect="stores-every-function")
+benign("c03-benign-fresh-via-local", "C03", "jax2onnx/plugins/jax/lax/tanh.py", "        result = ctx.builder.Tanh(x_val, _outputs=[desired_name])", "        out_name = desired_name\n        result = ctx.builder.Tanh(x_val, _outputs=[out_name])")
+
+# ----------------------------------------------------------------------------- C08
+PPF = "jax2onnx/converter/ir_postprocess.py"
+mutant("c08-interface-shapes-loosened", "C08", PPF, "            name = _value_name(output)\n            if name and name in io_names:\n                continue\n", "            name = _value_name(output)\n", expect="shape-write")
+mutant("c08-unknown-dim-becomes-one", "C08", PPF, "        else:\n            new_dims.append(None)\n            changed = True", "        else:\n            new_dims.append(1)\n            changed = True", expect="_unknown_shape_like")
+mutant("c08-normalize-dim-constant", "C08", PPF, "    if isinstance(dim, str):\n        return ir.SymbolicDim(dim)\n    return None", "    if isinstance(dim, str):\n        return ir.SymbolicDim(dim)\n    return 1", expect="_normalize_dim")
+mutant("c08-promotion-type-not-updated", "C08", PPF, "    value.const_value = promoted\n    value.type = ir.TensorType(ir.DataType.DOUBLE)", "    value.const_value = promoted", expect="const_value")
+mutant("c08-shape-from-elsewhere", "C08", PPF, "            output.shape = unknown_shape\n", "            output.shape = ir.Shape(tuple(None for _ in unknown_shape.dims)) if force_rank_only else unknown_shape\n            output.shape = ir.Shape((1,))\n", expect="shape-write")
+benign("c08-benign-guard-split", "C08", PPF, "            name = _value_name(output)\n            if name and name in io_names:\n                continue\n", "            name = _value_name(output)\n            if name:\n                if name in io_names:\n                    continue\n")
